@@ -58,6 +58,47 @@ CLAIMS = {
              "the istream semantics. TLC also explores all field programs of the reader model.",
         note="A reduced corpus runs in the ASan/UBSan build (crash / out-of-bounds clause); length fields are not altered; header-byte "
              "alterations only need to survive; round-trip identity is computed by the driver."),
+    "C20": dict(
+        category="model_checking", design_ref="DESIGN.md §3 C20",
+        technique="TLC re-computation of recorded percentile/histogram calls with exact reference operators (OrderStatsTrace.tla), exhaustive over short lists",
+        text="TLC evaluates the reference operators of OrderStats.tla (sorted-array percentile with mid-points, counting rule for bins) "
+             "against the textual definitions on all lists <=4 over 5 values, and re-computes every recorded call of the real "
+             "percentile / median / histogram_t (four constructors) / bin(v) / ml::store_stats: exhaustively all lists of length <=3 "
+             "(thorough 4) over a 5-value lattice x thresholds x all lattice queries, plus random lists of up to 500 values with ties, "
+             "negatives, duplicate and out-of-range thresholds and non-integer queries.",
+        note="Exact lattice: values multiples of 1/4, thresholds and queries of 1/64, percentages and ratios of 1/8; thresholds from "
+             "exponents are not re-derived (log/pow); the stdev slot of store_stats is not checked."),
+    "C12": dict(
+        category="model_checking", design_ref="DESIGN.md §3 C12",
+        technique="TLC model checking of the chunking schemes over all permutations (SplitterModel.tla) + TLC evaluation of set predicates on recorded splitter/sampler calls (SplitterTrace.tla)",
+        text="TLC shows that for every shuffle of n<=6 indices, every fold count and percentage the two splitting schemes yield disjoint, "
+             "sorted, covering parts, partitioning folds with sizes differing by less than k and round-to-nearest training sizes; the set "
+             "predicates are then evaluated by TLC on recorded calls of the real splitters: n 2..40 x folds 2..min(n,12) x seeds "
+             "(thorough: all 1025; quick: every 64th), all percentages 10..90, random non-contiguous inputs up to 5000, samplers "
+             "(with/without replacement, weighted, gboost sampler), same-seed and clone determinism.",
+        note="Ball membership is computed by the driver (real-valued norm); the random splitter is enumerated on two full axes rather "
+             "than the full product; evidence reports exhaustive only for the stride-1 (thorough) run."),
+    "C16": dict(
+        category="model_checking", design_ref="DESIGN.md §3 C16, appendix B.6",
+        technique="TLC model checking of row-major addressing facts for all small shapes (TensorModel.tla) + TLC re-computation of every recorded view operation on real tensors (TensorTrace.tla, ASan/UBSan build)",
+        text="TLC checks for every shape of rank<=4, dims 0..3 (thorough: 0..4 and rank 5) that the offset map is the row-major bijection "
+             "and that prefix views and slices address exactly the fully indexed elements as contiguous in-range blocks; every index "
+             "tuple, prefix view (tensor/vector/matrix), slice, reshape factorisation (with inferred -1), gather, storage conversion and "
+             "summed-area table of all 1800+ shapes rank<=4 dims 0..4 / rank 5 dims 0..3, other scalar types and random shapes up to 1e5 "
+             "elements is executed on real tensors under ASan/UBSan and re-computed by TLC.",
+        note="The buffer holds its own flat indices (values = addresses); large views are compared by offset, dims, count and a check-sum; "
+             "reshape with an inferred dimension next to a zero-sized one (0/0) is excluded."),
+    "C08": dict(
+        category="model_checking", design_ref="DESIGN.md §3 C08",
+        technique="TLC model checking of the drop/shuffle/undo protocol (DatasetModel.tla) + TLC validation of recorded histories of real dataset_t objects with all views re-computed (DatasetTrace.tla, ASan/UBSan build)",
+        text="TLC explores every drop/undrop/shuffle/unshuffle history (all permutations) for exactly-that-feature, bijection, "
+             "undo-restores and select/flatten agreement; random data sources (12 storage types, class counts 1..300, struct dims up to "
+             "3x3x2, arbitrary masks, targets of any kind or absent, 1..200 samples) behind real dataset_t objects with random generator "
+             "stacks (4 identity generators, pairwise product, feature subsets, 1..16 threads) are driven through random histories; after "
+             "every operation the flattened view, every per-feature view, targets, reported permutations, bookkeeping and the "
+             "rejection of out-of-range indices are recorded and re-computed by TLC.",
+        note="Stored values are small integers; generated-feature sources come from the descriptors the dataset reports; the gradient "
+             "generator is not covered; ASan/UBSan build for the never-read clause."),
 }
 
 NOT_YET = "machinery not finished (see DESIGN.md §7: a property is claimed only once its quick check passes and its demo mutations are caught)"
